@@ -2,7 +2,7 @@
 import os
 
 from . import core
-from .rules import stdio, cert, mark, exact, optstore, inval, idx, atomic, own, tokens, idxclass, copy, pair, structfree, buf, div, counter, sentinel, appendinit, verdict, basismap, zerotol, escape, lenclass, djsym, ndet, useb4check, norms, opencheck, shell, esolver, errlost, rescan, certdep, neverset, fmt, defaults, scratch, fullscan, slotleak, floatidx, sensemap, trunc, vtypezero, allockind, intdiv, strscan, localfield, rawidx, argcap, staleptr, condalloc, lpstate, vstattype, alphabet, outleak, fieldleak, lenm1, basisdim, dupmark, rowcopy, normlen, logonly, decacc, nzcount, infmap, lognofail, outunset, dupentry, digitseen, signedidx, strcap, nulterm, finite, nullret, pcheck, probstat, dzfresh, kwtable, headguard, hitused, optptr
+from .rules import stdio, cert, mark, exact, optstore, inval, idx, atomic, own, tokens, idxclass, copy, pair, structfree, buf, div, counter, sentinel, appendinit, verdict, basismap, zerotol, escape, lenclass, djsym, ndet, useb4check, norms, opencheck, shell, esolver, errlost, rescan, certdep, neverset, fmt, defaults, scratch, fullscan, slotleak, floatidx, sensemap, trunc, vtypezero, allockind, intdiv, strscan, localfield, rawidx, argcap, staleptr, condalloc, lpstate, vstattype, alphabet, outleak, fieldleak, lenm1, basisdim, dupmark, rowcopy, normlen, logonly, decacc, nzcount, infmap, lognofail, outunset, dupentry, digitseen, signedidx, strcap, nulterm, finite, nullret, pcheck, probstat, dzfresh, kwtable, headguard, hitused, optptr, noindex
 from .effects import Effects
 
 FIX = os.path.join(os.path.dirname(os.path.abspath(__file__)), "fixtures")
@@ -290,7 +290,7 @@ PROPS = {
     "C07": {
         "rules": [lambda prog, tier: idx.run(prog), lambda prog, tier: atomic.run(prog), lambda prog, tier: shell.run(prog, shared_eff(prog)),
                   lambda prog, tier: lpstate.run(prog),
-                  lambda prog, tier: alphabet.run(prog, shared_eff(prog)), lambda prog, tier: basisdim.run(prog), lambda prog, tier: dupmark.run(prog), lambda prog, tier: logonly.run(prog), lambda prog, tier: lognofail.run(prog), lambda prog, tier: outunset.run(prog), lambda prog, tier: alphabet.run_narrow(prog), lambda prog, tier: dupentry.run(prog), lambda prog, tier: own.run_loadkeep(prog), lambda prog, tier: own.run_basiscard(prog, shared_eff(prog)), lambda prog, tier: own.run_basissense(prog, shared_eff(prog)), lambda prog, tier: idx.run_pubstruct(prog), lambda prog, tier: pcheck.run(prog), lambda prog, tier: headguard.run(prog),
+                  lambda prog, tier: alphabet.run(prog, shared_eff(prog)), lambda prog, tier: basisdim.run(prog), lambda prog, tier: dupmark.run(prog), lambda prog, tier: logonly.run(prog), lambda prog, tier: lognofail.run(prog), lambda prog, tier: outunset.run(prog), lambda prog, tier: alphabet.run_narrow(prog), lambda prog, tier: dupentry.run(prog), lambda prog, tier: own.run_loadkeep(prog), lambda prog, tier: own.run_basiscard(prog, shared_eff(prog)), lambda prog, tier: own.run_basissense(prog, shared_eff(prog)), lambda prog, tier: idx.run_pubstruct(prog), lambda prog, tier: noindex.run(prog), lambda prog, tier: pcheck.run(prog), lambda prog, tier: headguard.run(prog),
                   lambda prog, tier: errlost.run(prog, scope_funcs=set(prog.reachable(sorted(f.key for f, _ in inval.api_functions(prog)))), floor=150)],
         "technique": "interprocedural taint of API index/selector arguments + path-sensitive must-analysis of range-guard facts "
                      "(right dimension, right strictness) on clang::CFG with callee preconditions propagated to the API boundary and "
@@ -713,7 +713,7 @@ _ADD = {
                            "function or a helper whose verdict it tests). (R-LOADKEEP) a public function that empties p->basis calls nothing that can fail for "
                            "another reason than allocation behind the emptying (read and check first, swap last). (R-BASISCARD) every loader of external "
                            "status data runs the cardinality checker (found structurally) before it fills p->basis. (R-RSTATLOAD) every loader also calls a validator that reads the row senses (the status 'at upper' "
-                           "exists for ranged rows only). (R-PUBSTRUCT) no public function compares a caller-supplied index with a dimension of the internal column space (structural columns and logicals interleaved): the interface speaks structural numbers, checked against nstruct and mapped through structmap. (R-PCHECK) every public function looks into "
+                           "exists for ranged rows only). (R-PUBSTRUCT) no public function compares a caller-supplied index with a dimension of the internal column space (structural columns and logicals interleaved): the interface speaks structural numbers, checked against nstruct and mapped through structmap; a caller's array is not walked with the internal column count. (R-NOINDEX) the index of a symbol table entry leaves a public function through an out-parameter only after it has been compared with the 'no index' value (the objective's name sits in the row table without an index), the obligation travelling up the chain of forwarded out-parameters. (R-PCHECK) every public function looks into "
                            "its problem handle only behind check_qsdata_pointer (p) or a NULL test of it (80 of 83 did; the three others are repaired)."},
     "C08": {"technique": "; all-paths constant propagation through the '/' case of the exact literal scanner; flag-state dataflow for stores into the "
                          "raw LP's bounds; machine-word sink census; exit-condition analysis of the emission loops",
